@@ -1,10 +1,14 @@
 mod args;
 mod codec;
+mod decode;
 mod identc;
 mod retain;
 mod table;
 
 use serde_json::json;
+
+#[global_allocator]
+static ALLOC: vcommon::alloc::Counting = vcommon::alloc::Counting;
 
 fn main() {
     let a = args::Args::parse();
@@ -12,6 +16,7 @@ fn main() {
     let start = std::time::Instant::now();
     let rep = match a.cmd.as_str() {
         "codec" => codec::run(&a),
+        "decode" => decode::run(&a),
         "retain" => retain::run(&a),
         "table" => table::run(&a),
         "ident" => identc::run(&a),
